@@ -47,6 +47,9 @@ CHECKS = {
  "C13": ("exploration", E1 + ": field-law instances over literal quantities and every shipped fact, both sides evaluated by the real code",
          "Commutativity over pairs of ~125 literal quantities and ~770 facts, a-a, a/a for all, associativity and distributivity over a core of triples; both sides compared in SI normal form within one Db instance.",
          "Independent unit table for the SI normal form; plain-number adoption and zero divisors are outside the laws' preconditions.", "3 C13"),
+ "C14": ("model_checking", "stateless depth-first schedule exploration of the real index build under a controlled scheduler at tantivy's layout-determining seams (vendored tantivy with gates), plus session histories mem / disk-first / disk-reopen / disk-rebuild",
+         "Every assignment of documents to indexing workers (symmetry-reduced), every order of equally sized segments, merge timing and merge input order is enumerated on the real Db::in_memory()/Db::open() over reduced data sets of shipped constants that tie for the ambiguous probes; every session of every execution must answer the probe set like the reference execution (and own-word probes must find their constant); on-disk layouts are read back from the real index; the full shipped data runs under corner schedules.",
+         "Layout depends on scheduling only through the four gated seams (argued in DESIGN 2.6, cross-checked by reading real on-disk layouts back); vendored tantivy = registry 0.19.2 + vendor/tantivy-gates.patch (checked in setup); hook H1 (asset directory seam) supplies the reduced data sets.", "3 C14"),
  "C16": ("exploration", E1 + ": every shipped constant x every permutation of its words",
          "All 878 constants decoded independently; every typeable permutation of their words is looked up with descriptions on.",
          "One in-memory Db per worker.", "3 C16"),
@@ -78,7 +81,7 @@ def main():
             "thorough_cmd": f"./check {pid} --tier thorough",
             "evidence_file": f"/verif/evidence/{pid}.json",
             "replay_cmd_template": f"./check {pid} --replay {{path}}",
-            "engine": "vh",
+            "engine": "vs" if pid == "C14" else "vh",
             "level_claimed": {"category": cat, "text": text, "design_ref": "DESIGN.md §" + ref},
             "level_note": note,
             "technique": tech,
@@ -86,15 +89,17 @@ def main():
     na = [{"property_id": p, "reason": NOT_APPLICABLE.get(p, "check not built yet in this round (planned, see DESIGN.md §3)")} for p in ALL if p not in CHECKS]
     m = {
         "version": 1,
-        "setup_cmd": "cd /verif/harness && CARGO_NET_OFFLINE=true cargo build --offline --release && CARGO_NET_OFFLINE=true cargo build --offline --profile verif-debug",
+        "setup_cmd": "mkdir -p /verif/scratch && /verif/tools/check_vendor.sh && cd /verif/harness && CARGO_NET_OFFLINE=true cargo build --offline --release && CARGO_NET_OFFLINE=true cargo build --offline --profile verif-debug && cd /verif/harness-sched && CARGO_NET_OFFLINE=true cargo build --offline --release && cd /repo && CARGO_NET_OFFLINE=true cargo build --offline --release --bin any --target-dir /verif/harness/target/any",
         "hooks": {
             "guard": "anything_verif",
             "enable": "RUSTFLAGS=\"--cfg anything_verif\" via /verif/harness/.cargo/config.toml (harness builds only)",
             "baseline_off_cmd": "cd /repo && cargo test --workspace --no-fail-fast --offline",
-            "source_commits": [],
+            "source_commits": ["f37cae5"],
             "add_only": True,
         },
         "engines": [
+            {"name": "vs", "path": "/verif/harness-sched", "serves_properties": ["C14"],
+             "kind_free_text": "stateless DFS schedule explorer: worker-process pool running the real index build against /verif/vendor/tantivy-0.19.2 (registry crate + gate patch) under a process-global controller"},
             {"name": "vh", "path": "/verif/harness", "serves_properties": [c["property_id"] for c in checks],
              "kind_free_text": "Rust harness linking /repo as a path dependency: sharded bounded-exhaustive explorers (input spaces, histories) against reference models, worker subprocesses with crash/hang attribution"},
         ],
